@@ -179,10 +179,22 @@ def emit : Handler := fun req => do
   let opsJ := (arr (fieldD inp "ops" (Json.arr #[]))).toOption.getD []
   let fullSeeds := dedup (opsJ.flatMap fullRefs ++ fullRefs (fieldD inp "path_params" (Json.arr #[])))
   let reach := (reachable fullDeps fullSeeds).getD []
+  -- Rust-level use: reachable in the emitted type graph from the types the client/server file names
+  -- (an inline schema may legitimately be emitted under the name of an identical component)
+  let allDeps : List (GName × List GName) := defs.map fun d => (((d.getObjValAs? String "name").toOption.getD "").toList, dedup (edgesOf d ["value", "option", "box", "vec", "map", "generic", "ref"] false false))
+  let rootFile := if mode == "server-mod" then "server" else "client"
+  let rroots : List GName := (mentions.filterMap fun m => match m.splitOn "|" with
+    | [f, body] => if f == rootFile then
+        let b := if body.startsWith "expr:" then (body.drop 5).toString else if body.startsWith "ctor:" then (body.drop 5).toString else body
+        let first := (b.splitOn "::").head!
+        if typeDefs.contains first then some first.toList else none
+      else none
+    | _ => none).eraseDups
+  let rustReach := (reachable allDeps rroots).getD []
   let orphans := if scopeAll || mode == "types" then [] else
     (schemasJ.filterMap fun (k, _) =>
       let tn := String.ofList (Oas3.Naming.toRustTypeName Oas3.Gen.prelude Oas3.Client.idTr k.toList)
-      if typeDefs.contains tn && !reach.contains k.toList then some tn else none).eraseDups
+      if typeDefs.contains tn && !reach.contains k.toList && !rustReach.contains tn.toList then some tn else none).eraseDups
   let judges : List String := ((arr (fieldD inp "judges" (Json.arr #["closed", "orphans", "size", "default"]))).toOption.getD []).filterMap fun x => x.getStr?.toOption
   let undefinedNames := if judges.contains "closed" then undefinedNames else []
   let dupTypes := if judges.contains "closed" then dupTypes else []
